@@ -52,6 +52,14 @@ func headerVariants() []headerVariant {
 		{"application/ld+json; profile=https://www.w3.org/ns/activitystreams-not", "not", true, false},
 		{`application/ld+json; profile="https://example.com/other"; x="application/ld+json; profile=https://www.w3.org/ns/activitystreams"`, "not", true, false},
 		{"text/html, application/activity+json-seq;q=0.5", "not", true, true},
+		// quoted strings with escapes: a backslash escapes the next
+		// character, also another backslash, so `"\\"` is a complete
+		// quoted string and what follows it is outside
+		{`text/plain; t="\\", text/html; a="\", application/activity+json, \""`, "not", true, true},
+		{`text/plain; t="a \" b, application/activity+json"`, "not", true, false},
+		{`text/plain; t="\\\\"; u="application/activity+json"`, "not", true, false},
+		{`text/plain; t="x\\", application/activity+json`, "ap", true, true},
+		{`text/plain; t="\"", application/ld+json; profile="https://www.w3.org/ns/activitystreams"`, "ap", true, true},
 	}
 }
 
